@@ -272,6 +272,19 @@ def _compare(ctx, p, rng):
                 s = float(np.median(a[0])) if a[0].size else 0.0
                 _t(ctx, lambda: op(X, s)); _t(ctx, lambda: op(s, X))
                 _t(ctx, lambda: op(X, b[0, 0])); _t(ctx, lambda: op(X, np.float64(s)))
+    # a single precision polynomial against double precision constants that differ from its values by less than single precision
+    # resolves (0.1 against float32(0.1) = 0.100000001490...): NumPy compares in double precision for a numpy.float64 scalar, array or
+    # list of them - the constant must not be rounded to the type of the coefficients first
+    for shape in [(), (3,)]:
+        a = gen.series_data(rng, D, P, shape, 'R', 'random', False, 1.0).astype(np.float32)
+        X = UTPM(a.copy())
+        base = np.asarray(a[0, 0], dtype=np.float64)
+        for delta in (0.0, 1e-9, -1e-9):
+            c = base * (1.0 + delta)
+            for op in (operator.lt, operator.le, operator.gt, operator.ge, operator.eq):
+                if P == 1 or np.all(a[0] == a[0, :1]):
+                    _t(ctx, lambda: op(X, c)); _t(ctx, lambda: op(X, c.tolist() if shape else np.float64(c)))
+                _t(ctx, lambda: op(X, np.float64(np.mean(base)) * (1.0 + delta)))
     # clipping with the lower bound above the upper one (per element, after broadcasting): NumPy returns the upper bound
     for shape in [(3,), (2, 2)]:
         a = gen.series_data(rng, D, P, shape, 'R', 'random', False, 1.0)
